@@ -10,7 +10,12 @@
 //   the same projectors called with ProjData SMALLER than the set-up geometry (fewer segments, trimmed axial/tangential ranges);
 //   images with a non-zero z origin and x/y-anisotropic voxels; pre-/post- data processors of set_input / get_output;
 //   ProjectorByBinPairUsingSeparateProjectors, PresmoothingForwardProjectorByBin, PostsmoothingBackProjectorByBin;
-//   on-the-fly projector with restrict_to_cylindrical_FOV true and false.
+//   on-the-fly projector with restrict_to_cylindrical_FOV true and false;
+//   image grids whose index ranges are not the default ones (first plane negative / straddling 0 / positive, extra columns
+//   at either end of x and y: VoxelsOnCartesianGrid(exam_info, IndexRange3D, origin, voxel_size)) in all of the above;
+//   HISTORIES: one matrix / forward+back projector / ProjectorByBinPairUsingProjMatrixByBin / on-the-fly projector object
+//   set_up in turn for several image grids and projection-data geometries (run_history), compared after every set_up with
+//   fresh objects, with the model (MatrixObj state machine; projections from the rows of a fresh matrix) and with each other.
 //
 // Usage: c04_projectors <seed> <quick|thorough> <opsfile> <implfile>
 //   <opsfile>  one operation per line (protocol: see lean/Driver/C04.lean); the explicit matrix rows (hex floats), the
@@ -449,7 +454,10 @@ make_world(World& w, vh::Rng& rng, int kind, bool thorough, bool even_views, boo
   const bool aniso = !w.blocks && rng.range(0, 3) == 0;
   // index ranges: the default ones (first plane 0), or first plane negative / straddling / positive and x/y ranges with
   // extra columns at either end
-  const GridShape shape = shaped ? random_shape(rng, nz, true) : GridShape();
+  // (no extra columns together with x/y-anisotropic voxels: the on-the-fly projector reads the voxel with x and y exchanged
+  //  - for its 90-degrees symmetries, whether they are used or not - and would read outside an image whose centred x and y
+  //  extents differ in voxels; see the report / assumptions)
+  const GridShape shape = shaped ? random_shape(rng, nz, !aniso) : GridShape();
   w.image = make_grid(*w.pdi, zoom, aniso ? zoom * (rng.coin() ? 1.25F : 0.8F) : zoom, nxy, nz, zorg, 1.F, shape);
   w.exam.reset(new ExamInfo);
   w.exam->imaging_modality = ImagingModality::PT;
@@ -2636,8 +2644,11 @@ run_history(vh::Rng& rng, bool thorough, int hid)
         objs.push_back(d);
       }
   }
-  for (auto& o : objs)
-    o.build();
+  for (std::size_t oi = 0; oi < objs.size(); ++oi)
+    {
+      objs[oi].build();
+      emit("mnew " + std::to_string(oi) + " " + (objs[oi].cache ? "1" : "0") + " " + (objs[oi].only_basic ? "1" : "0"), "ok");
+    }
   const bool otf_possible = !base.blocks && !base.tof && views % 2 == 0;
   const bool otf_cylfov = objs[0].ms.cylfov;
   shared_ptr<ForwardProjectorByBinUsingRayTracing> otf_old;
@@ -2712,10 +2723,16 @@ run_history(vh::Rng& rng, bool thorough, int hid)
             {
               g_counts["history_steps_refused"]++;
               if (!old_ok)
-                o.build(); // start again with a new object
+                {
+                  o.build(); // start again with a new object
+                  emit("mnew " + std::to_string(oi) + " " + (o.cache ? "1" : "0") + " " + (o.only_basic ? "1" : "0"), "ok");
+                }
               continue;
             }
           g_counts["history_object_steps"]++;
+          // the model's matrix object goes through the same two set_ups (forward projector, back projector)
+          for (int rep2 = 0; rep2 < 2; ++rep2)
+            emit("mset " + std::to_string(oi) + " " + std::to_string(st.id) + " " + (o.ms.type == 0 ? "1" : "0"), "ok");
           // ---- rows requested directly, before any projection (caches some of them)
           {
             long bad = 0;
@@ -2724,8 +2741,17 @@ run_history(vh::Rng& rng, bool thorough, int hid)
               {
                 const int s = rng.range(w.minSeg, w.maxSeg);
                 const Bin b(s, rng.range(w.minView, w.maxView), rng.range(w.aMin(s), w.aMax(s)), rng.range(w.minT, w.maxT), rng.range(w.minK, w.maxK));
-                if (get_row(*o.pm, b) != get_row(*f.pm, b))
+                const RowT r_old = get_row(*o.pm, b), r_new = get_row(*f.pm, b);
+                if (r_old != r_new)
                   ++bad;
+                // model: MatrixObj.getRow on the object with the same history, the fresh row as data
+                std::ostringstream bs;
+                bs << b.segment_num() << " " << b.view_num() << " " << b.axial_pos_num() << " " << b.tangential_pos_num() << " "
+                   << b.timing_pos_num();
+                emit("mdef " + std::to_string(st.id) + " " + bs.str() + rowstr(r_new), std::to_string(r_new.size()));
+                const std::string ro = rowstr(r_old);
+                emit("mget " + std::to_string(oi) + " " + bs.str(), ro.empty() ? ro : ro.substr(1));
+                g_counts["history_rows_answered_by_the_model"]++;
               }
             oracle(bad == 0, "get_proj_matrix_elems_for_one_bin of a matrix that was set up for another geometry before differs from a fresh matrix for "
                                  + std::to_string(bad) + " of " + std::to_string(nreq) + " bins " + where);
@@ -3060,7 +3086,7 @@ make_otf_world(World& w, vh::Rng& rng, int k)
   const int zorg = Zs[c];
   // index ranges: first plane negative / straddling / positive (and extra columns) in half of the worlds
   const bool shaped = c == 1 || c == 3 || c == 4 || c == 6 || c == 8;
-  const GridShape shape = shaped ? random_shape(rng, nz, k % 2 == 0) : GridShape();
+  const GridShape shape = shaped ? random_shape(rng, nz, k % 2 == 0 && !aniso) : GridShape();
   w.image = make_grid(*w.pdi, zoom, aniso ? zoom * (rng.coin() ? 1.25F : 0.8F) : zoom, nxy, nz, zorg, coarse_z ? 0.5F : 1.F, shape);
   w.exam.reset(new ExamInfo);
   w.exam->imaging_modality = ImagingModality::PT;
